@@ -142,8 +142,10 @@ class C14(core.Check):
         "Scale invariance is exact for the scale-free signature Sig0 (guard = 0); with the guard, the change of every guarded "
         "arccos / log10 argument of the scaled cell is bounded (T_C14_guard_scale: e/(k^2|n|), e/(k|s1|)+e/(k|s2|), relative "
         "e/(k min edge)), the propagation through acos/pow/log10 is not a theorem (implementation: unit cube 0.173, 0.1 cube "
-        "1.80, 100 cube 0.0017, envelope-checked). Monotonicity of the float post-processing (pow/log10) in the aspect ratio is "
-        "checked by the oracle, not proved. Quad renumbering is proved on Sig0 for planar convex quadrilaterals (= all four "
+        "1.80, 100 cube 0.0017, envelope-checked); for every Lipschitz post-processing the bound on the value is a theorem "
+        "(T_C14_guard_value). The stretch clause is a theorem for every monotone aspect term, in particular q_scale with the regenerated "
+        "constants (T_C14_stretch_value, T_C14_stretch_aspect_term); that the float acos/pow/log10 satisfy that contract is assumed and "
+        "checked by the oracle. Quad renumbering is proved on Sig0 for planar convex quadrilaterals (= all four "
         "corner normals positively parallel) and disproved by counterexample for a concave and a non-planar one."
     )
 
